@@ -55,6 +55,7 @@ type c01pResult struct {
 	viol     []simViolation
 	pn       string
 	applied  int
+	early    bool
 }
 
 func c01pRun(t *testing.T, c c01pCase) (res c01pResult) {
@@ -87,6 +88,7 @@ func c01pRun(t *testing.T, c c01pCase) (res c01pResult) {
 			}
 			if !released {
 				park.freeze()
+				released = true
 				close(park.release)
 			}
 			func() {
@@ -116,6 +118,17 @@ func c01pRun(t *testing.T, c c01pCase) (res c01pResult) {
 			}
 			return false
 		}
+		release := func() {
+			if released {
+				return
+			}
+			park.freeze()
+			hmu.Lock()
+			armed = false
+			hmu.Unlock()
+			released = true
+			close(park.release)
+		}
 		script := c01pScripts[c.Script]
 		botUp := map[int]bool{0: true, 1: true, 2: true}
 		i := 0
@@ -133,7 +146,27 @@ func c01pRun(t *testing.T, c c01pCase) (res c01pResult) {
 			}
 			if ok {
 				failed := w.stats["up-did-not-establish"]
-				sc.Apply(w, e)
+				// an event that goes through the management channel cannot complete while the server loop is the
+				// goroutine being held: after 20 s of virtual time the held goroutine is released early
+				applied := make(chan any, 1)
+				go func() {
+					defer func() { applied <- recover() }()
+					sc.Apply(w, e)
+				}()
+				tm := time.NewTimer(20 * time.Second)
+				select {
+				case pn := <-applied:
+					tm.Stop()
+					if pn != nil {
+						panic(pn)
+					}
+				case <-tm.C:
+					release()
+					res.early = true
+					if pn := <-applied; pn != nil {
+						panic(pn)
+					}
+				}
 				res.applied++
 				switch e.Op {
 				case "down", "delpeer":
@@ -154,12 +187,7 @@ func c01pRun(t *testing.T, c c01pCase) (res c01pResult) {
 		for k := 0; res.reached && k < c.N && i < len(script); k++ {
 			apply()
 		}
-		park.freeze()
-		hmu.Lock()
-		armed = false
-		hmu.Unlock()
-		released = true
-		close(park.release)
+		release()
 		synctest.Wait()
 		w.advance(2 * time.Second)
 		sc.foldNew(w)
@@ -192,6 +220,9 @@ func c01pJudge(r *vr.Report, t *testing.T, c c01pCase) c01pResult {
 	r.NT(fmt.Sprintf("%s/%d/%s/%d", c.Cfg, c.Script, site, c.N))
 	r.Outcome(fmt.Sprintf("%s:script%d:n=%d:%s", c.Cfg, c.Script, c.N, site))
 	r.Transitions += int64(res.applied)
+	if res.early {
+		r.Outcome("held-goroutine-released-early(an event waited for it)")
+	}
 	if res.pn != "" {
 		r.Violationf("C01:park:panic:"+simPanicSite(res.pn), c, "%s (held at %q): %s", c, res.parkedAt, res.pn)
 	}
